@@ -673,3 +673,13 @@ _add(
     "C18",
     m("task-hash-drops-export-names", T, "                hash_struct([\"export_options\", sorted(self._export_options)])", "                hash_struct([\"export_options\"])", "C18.9"),
 )
+
+_add(
+    "C09",
+    m("local-callback-exception-only", "redun/executors/local.py", "            except BaseException as error:\n                # An error escaping this callback is dropped by the pool and the job would stay\n                # running forever.\n                self._scheduler.reject_job(job, _as_exception(error))\n", "", "C09.9"),
+)
+
+_add(
+    "C03",
+    m("reject-reuse-keeps-own-subtree", S, "                    job.subtree_tasks = self._get_subtree_tasks(job)\n                else:\n                    error_value = ErrorValue(", "                else:\n                    error_value = ErrorValue(", "C03.8"),
+)
